@@ -46,6 +46,7 @@ func init() {
 			ruleTornRecordIsNotEOF(r)
 			ruleNilFlag(r)
 			ruleHeaderSizesChecked(r)
+			ruleLzwWholeStream(r, "lzw-whole-stream")
 		})
 	register("C20",
 		"Static agreement between the published Kaitai schema / its generated Go reader and the native writer: the compression enum (values and names) equals the writer's constant table in the .ksy and in the generated constants; the record field sequence and the marker literal equal the writer's header; the file header is two little-endian u4; the generated payload-length function is evaluated abstractly for the four cases the writer produces (nil record in a compressed / uncompressed file, uncompressed, compressed) and must yield 0 / 0 / uncompressed / compressed length; the schema expression mentions the same inputs. Decides these shapes; record-by-record equality for all files is not decided.",
